@@ -120,6 +120,15 @@ def mem_vocab(addrs=MEM_ADDRS, small=False):
     return v
 
 
+def mem3_vocab(addrs=(0, 0x1f, 0x20, 0x21)):
+    """loads, word stores and byte stores at a few constant offsets with distinct stored values: every combination of
+    three such accesses is enumerated exhaustively (unaligned overlaps, byte inside a word)"""
+    v = []
+    for a in addrs:
+        v += [frag(push(a) + " MLOAD", "*"), frag("DUP1 " + push(a) + " MSTORE", "*"), frag("DUP2 " + push(a) + " MSTORE8", "*")]
+    return v
+
+
 def sto_vocab():
     v = []
     for k in (0, 1):
